@@ -74,7 +74,11 @@ def _doc(g, r, ti, files, dirpath, depth_budget=2, allow_fail=True):
             v = raw(f'!unsafe {emit.emit(g.value(1))}')
         elif c == 17 and allow_fail:
             v = raw(r.choice([f'!call:simrec.raiser [t{ti}]', '!required', '!include missing_file.yaml',
-                              f'!unsafe !call:simrec.f_t{ti}u []', '!xref nowhere.at.all']))
+                              f'!unsafe !call:simrec.f_t{ti}u []', '!xref nowhere.at.all',
+                              # a safe call whose argument is unsafe: the error text lists the chain of dependencies being evaluated
+                              f'!call:simrec.f_t{ti}w {{a: {{b: [1, !unsafe t{ti}_arg{uid}]}}}}',
+                              f'!call:simrec.f_t{ti}w {{a: {{b: [1, !unsafe t{ti}_arg{uid}]}}}}',
+                              f'!bind:simrec.f_t{ti}w {{a: !unsafe {{k: t{ti}_arg{uid}}}}}']))
         else:
             v = g.value(1)
         items.append([k, v])
